@@ -80,12 +80,34 @@ M = {
  "C18_bsc_upgrade_keeps_later_signers": ("C18", "a BSC client updated past an epoch header and then upgraded back to that header", "C18 quick (C18.BscUpgradeInstalls, C18.BscValidUpdateAccepted; BSC leg)", "missed by the first version (BSC upgrades not replayed); BSC leg added"),
  "C19_iterate_splits_on_sequences": ("C19", "a chain named like a constant element of the store paths ('sequences')", "C19 quick (C19.KeyParseBack, name class 'kwsequences')", "missed by the first version; keyword name classes added"),
  "C20_params_cached_in_keeper": ("C20", "a governance parameter change between blocks", "C20 quick (ParamChange / Release)", "caught at first attempt"),
+ # round 5 (sub-agents were told rounds 1-4)
+ "C01_createclient_drops_prefix_named_state": ("C01", "a delivery, then governance creating a client for a chain whose name is a proper prefix of the source chain's name, then a replay", "C01 quick (C01.ReceiptStable / MarksExact at the NewClient step)", "missed by the first version (no client creation in the XIBC world); NewClient action added"),
+ "C02_duplicate_update_overwrites_consensus": ("C02", "a second MsgUpdateClient for a height the client already verified, carrying a header of a private chain", "C02 quick (C02.ForgedHeaderRejected) and C07 quick (C07.AcceptedIsSound)", "caught at first attempt by C07; the C02 check missed it until forged-header updates by the registered relayer were added"),
+ "C03_hook_breaks_after_first_packet": ("C03", "one transaction sending to two destinations", "C04 quick (C04.SendTwoStep, three-chain leg)", "caught at first attempt (by C04)"),
+ "C04_no_commitment_for_tss_destination": ("C04", "a send to a destination whose client is a TSS client", "C04 quick (C04.TssSendCommits; authorisation-world leg)", "missed by the first version (the XIBC world has Tendermint clients only); TSS-destination leg added"),
+ "C05_ack_deletes_commitment_prefix": ("C05", "ten or more packets in flight on one path, the acknowledgement of sequence 1 first", "C05 quick (C05.CommitRemovedOnlyByAck on the long-history leg)", "missed by the quick tier (short behaviours); long-history leg added to the quick tier of C05, acknowledgements late and oldest first"),
+ "C06_getallrelayers_reuses_message": ("C06", "two or more relayers, then an export/import of the genesis", "C06 quick (C06.RegistrationInstalled) and C13 quick (C13.RoundTripLossless)", "caught at first attempt"),
+ "C07_known_header_shortcut_ignores_apphash": ("C07", "a second fully signed header for a height the client already holds, same time and next validators, other app hash", "C07 quick (C07.StoresExactly)", "missed by the first version (random times rarely coincide); generator category added"),
+ "C08_bsc_balance_truncated_uint64": ("C08", "a BSC contract account holding 2^64 wei or more", "C08 quick (C08.AllRightIsAccepted in the large-balance world)", "missed by the first version (small balances); a world with a balance above 2^64 and a nonce above 2^63 added"),
+ "C09_prune_first_listed_signer": ("C09", "block numbers gaining a decimal digit (9 -> 10), then the sealer of the newest block sealing again", "C09 quick (C09.NotARecentSealer)", "missed by the random behaviours of the quick tier; directed behaviour added"),
+ "C10_uncle_term_from_header": ("C10", "a proof-of-work client, a header/parent pair of which exactly one includes uncles", "C10 quick (C10.DifficultyRule, ETHPow.tla)", "missed by the first version (Rinkeby clients only; no valid seals can be produced); the difficulty rule is now observed through the stage of refusal, 128 classes"),
+ "C11_receiver_gains_at_least": ("C11", "an external token whose transfer credits more than the amount", "C11 quick (C11.ExactCoinToToken, C11.BackedExternal)", "missed by the first version (no such token class); hand-assembled bonus token added"),
+ "C12_equalmetadata_by_value": ("C12", "a coin whose metadata name differs from its base denomination, registered a second time (or added to another pair)", "C12 quick (C12.Findable, C12.NoSharing)", "missed by the random behaviours; directed behaviours added, AddCoin with differing names in the generator"),
+ "C13_metadata_export_breaks_at_tss": ("C13", "a TSS client whose chain name sorts before a Tendermint client's, then an export", "C13 quick (C13.RoundTripLossless)", "caught at first attempt"),
+ "C14_gov_hook_ranges_over_handlers": ("C14", "one transaction whose receipt holds a Voted and a VotedWeighted log of the same voter", "C14 quick (C14.SameState), C17 quick (C17.OncePerEvent)", "missed by the first version (two plain votes only); mixed-kind Tx2 added"),
+ "C15_genesis_pair_without_denoms": ("C15", "an aggregate genesis token pair without denominations", "C15 quick (C15.NoPanicInGenesis)", "missed by the first version (no genesis family); genesis classes added to Halt.tla"),
+ "C16_nil_ack_when_module_disabled": ("C16", "a registered voucher received while the module is disabled by governance", "C16 quick (C16.AckCommitted)", "caught at first attempt"),
+ "C17_single_weighted_option_as_plain_vote": ("C17", "a weighted vote with one option whose weight is not 100%", "C17 quick (C17.ExactArgs)", "missed by the first version (weights 100 or 50/50 only); option classes 31/32 added"),
+ "C18_update_msg_rejects_zero_height": ("C18", "a TSS update delivered as a transaction", "C18 quick (C18.ValidUpdateSucceeds)", "caught at first attempt"),
+ "C19_bsc_iteration_key_drops_revision": ("C19", "a BSC consensus state under a non-zero revision number", "C19 quick (C19.ConsKeyParseBack)", "missed by the first version (revision 0 only); Codec family 'cons' added"),
+ "C20_sweep_pool_when_nothing_exceeds": ("C20", "a pool holding a denomination that is not on the reward list when the rewarded one runs dry", "C20 quick (Release)", "caught at first attempt"),
 }
 
 
 def main():
     R3 = set(l.split()[0] for l in open(os.path.join(ROOT, "seeded", "round3.list")) if l.strip())
     R4 = set(l.split()[0] for l in open(os.path.join(ROOT, "seeded", "round4.list")) if l.strip())
+    R5 = set(l.split()[0] for l in open(os.path.join(ROOT, "seeded", "round5.list")) if l.strip())
     for n, (p, needs, by, hist) in M.items():
         d = os.path.join(ROOT, "seeded", n)
         if not os.path.isdir(d):
@@ -97,7 +119,7 @@ def main():
                    "what_was_run": "bin/confirmseed in the scratch worktree (build ok, demonstration fails with / passes without the change, repository suite 414/414); "
                                    "bin/tryall (git -C /repo apply, quick check, git checkout): " + ts[:400],
                    "origin": "independent sub-agent given only the property text, the list of already known changes and a scratch worktree (round %d)"
-                             % (4 if n in R4 else 3 if n in R3 else 2)},
+                             % (5 if n in R5 else 4 if n in R4 else 3 if n in R3 else 2)},
                   open(os.path.join(d, "meta.json"), "w"), indent=1)
     print("ok")
 
